@@ -16,6 +16,15 @@ CLAIMED = {
  "C05": ("exploration", "4 C05", "rule-based state machine against a reassembly model (component) + exhaustive cut subsets + Hypothesis schedules end to end",
          "A RuleBasedStateMachine delivers segments of a drawn two-direction record stream in order, early (displacement <= 4) or duplicated, with ISNs incl. wrap, and after every step compares the records Session hands to its record handler with the model; all cut subsets of short streams are enumerated; end-to-end schedules must export the ground truth.",
          "trusted: reassembly model in checks/c05.py; domain: causal reordering, exact duplicates; open finding F05r (reordering inside the ClientHello) excluded by construction and probed"),
+ "C09": ("exploration", "4 C09", "metamorphic testing: output bytes under generated key-delivery variants vs. the canonical key log (Hypothesis; subprocess runs for the no -s form)",
+         "Each generated scenario is exported with its canonical key log and with a drawn delivery variant (order, line ends, decorations, hex case, file / DSB / both / split / partitioned); the output files must be byte-identical.",
+         "trusted: lib/scenario.keylog_text (decorations), lib/netio DSB writer"),
+ "C10": ("exploration", "4 C10", "model-based testing against a reference model of the documented port rules (Hypothesis over -p / -m forms and server ports)",
+         "A small executable model of the README's port rules predicts, for generated connections and option sets, which flows are exported and with which ports; the real output must agree, and selected flows must still carry the ground-truth plaintext.",
+         "trusted: the model in checks/c10.py (from README and property text)"),
+ "C11": ("exploration", "4 C11", "differential testing of the checksum routines against a reference fold with boundary-steered sums + metamorphic end-to-end relation (-c vs. filtered capture)",
+         "Sums are steered exactly onto the carry/fold boundaries (free TCP window/urgent fields, free UDP payload word), verdicts are compared with the receiver rule for IPv4/IPv6, odd/even lengths; end to end the export with -c must equal the export of the capture without the corrupted packets.",
+         "trusted: lib/netio.csum16 / unfolded_sum; 'bad' is defined by the receiver's verification"),
  "C14": ("exploration", "4 C14", "exhaustive enumeration of all 65536 code points against an independent registry copy and name parser",
          "The input domain is finite and is enumerated completely (both resolvers), so for this tree the result is exact relative to the registry copy and the name grammar; it is still a test of the resolvers, not a proof about the registry.",
          "trusted: data/iana_tls_cipher_suites.json (provenance data/build_registry.py) and the token grammar of lib/tlsref.Suite"),
